@@ -5,7 +5,7 @@
 package pointstore
 
 //@ func PointKey
-//@   property C19
+//@   property C19 C01
 //@   pure
 //@   arith bv
 //@   ensures len(result) == 18 && result[0] == 'p' && result[17] == suffix
